@@ -1,6 +1,7 @@
 package p_codec
 
 import (
+	"strings"
 	"bytes"
 	"encoding/json"
 	"fmt"
@@ -302,6 +303,15 @@ func TestC04Mutants(t *testing.T) {
 	if rp := ev.LoadReplay(t, "mutants"); rp != nil {
 		var c DCase
 		json.Unmarshal(rp.Case, &c)
+		var remlen int
+		if k := strings.Index(c.Origin, "remaining length "); k >= 0 && strings.Contains(c.Origin, "input clipped") {
+			// a multi-megabyte input is stored by its recipe
+			fmt.Sscanf(c.Origin[k:], "remaining length %d", &remlen)
+			c.Input = largePublish(remlen)
+			if strings.Contains(c.Origin, "cut by one byte") {
+				c.Input = c.Input[:len(c.Input)-1]
+			}
+		}
 		if f, _ := checkDecode(c); f != "" {
 			failC04(t, rec, c, f)
 		}
@@ -362,6 +372,30 @@ func TestC04Mutants(t *testing.T) {
 			}
 		})
 	}
+	// well-formed packets whose remaining length needs three and four bytes (2 MiB
+	// and more), and the same cut by one byte
+	if e.Shard == 0 {
+		for _, remlen := range []int{2097151, 2097152, 2097153, 3000000} {
+			enc := largePublish(remlen)
+			for _, c := range []DCase{
+				{Decoder: codec.PUBLISH, Input: enc, Origin: fmt.Sprintf("valid PUBLISH with remaining length %d", remlen)},
+				{Decoder: codec.PUBLISH, Input: enc[:len(enc)-1], Origin: fmt.Sprintf("PUBLISH with remaining length %d cut by one byte", remlen)},
+			} {
+				n++
+				f, cls := checkDecode(c)
+				for _, cl := range cls {
+					classes[cl]++
+				}
+				classes["remaining-length>=2MiB"]++
+				rec.CaseRaw([]byte(c.Origin), true)
+				if f != "" && firstFail == nil {
+					cc := DCase{Decoder: c.Decoder, Input: c.Input[:64], Origin: c.Origin + " (input clipped to 64 bytes in this file; rebuild it from the origin)"}
+					firstFail, firstMsg = &cc, f
+					failures["large"]++
+				}
+			}
+		}
+	}
 	for k, v := range classes {
 		rec.Class(k, v)
 	}
@@ -372,6 +406,16 @@ func TestC04Mutants(t *testing.T) {
 		rec.Set("failure_examples", examples)
 		failC04(t, rec, *firstFail, firstMsg)
 	}
+}
+
+// largePublish builds the QoS 1 PUBLISH with the given remaining length.
+func largePublish(remlen int) []byte {
+	p := &codec.Packet{Type: codec.PUBLISH, QoS: 1, PacketID: 77, Topic: []byte("big/one")}
+	p.Payload = make([]byte, remlen-2-len(p.Topic)-2)
+	for i := range p.Payload {
+		p.Payload[i] = byte(i * 7)
+	}
+	return codec.Encode(p)
 }
 
 func genMutant(t *rapid.T) DCase {
